@@ -1,5 +1,6 @@
 (* AclipModel.v — IP-address ACL data as the code has it:
-     src/ip/Address.cc        isAnyAddr, isNoAddr, isIPv4, matchIPAddr, operator < <= > >=,
+     src/ip/Address.cc        isAnyAddr, isNoAddr, isIPv4, matchIPAddr, operator < <= > >= (no longer used
+                              by the ACL code since 98f97cc; kept for the correspondence run),
                               applyMask(Address), applyMask(cidr, type), turnMaskedBitsOn
      src/acl/Ip.cc            acl_ip_data::firstAddress/lastAddress,
                               Acl::SplayInserter<acl_ip_data*>::Compare / IsSubset / MakeCombinedValue,
@@ -80,17 +81,19 @@ Definition last_addr (v : ipval) : N :=
 Local Open Scope Z_scope.
 (* Acl::SplayInserter<acl_ip_data*>::Compare(a, b) *)
 Definition icompare (a b : ipval) : Z :=
-  if addr_lt (last_addr a) (first_addr b) then -1
-  else if addr_gt (first_addr a) (last_addr b) then 1
+  if matchIPAddr (last_addr a) (first_addr b) <? 0 then -1      (* a->lastAddress().matchIPAddr(b->firstAddress()) < 0 *)
+  else if matchIPAddr (first_addr a) (last_addr b) >? 0 then 1  (* a->firstAddress().matchIPAddr(b->lastAddress()) > 0 *)
   else 0.
 
 (* Acl::SplayInserter<acl_ip_data*>::IsSubset(a, b) *)
 Definition is_subset (a b : ipval) : bool :=
-  addr_le (first_addr b) (first_addr a) && addr_le (last_addr a) (last_addr b).
+  (matchIPAddr (first_addr b) (first_addr a) <=? 0) && (matchIPAddr (last_addr a) (last_addr b) <=? 0).
 
-(* std::min(x, y) = (y < x) ? y : x ; std::max(x, y) = (x < y) ? y : x ; with Ip::Address::operator < *)
-Definition addr_min (x y : N) : N := if addr_lt y x then y else x.
-Definition addr_max (x y : N) : N := if addr_lt x y then y else x.
+(* std::min(x, y, less) = less(y, x) ? y : x ; std::max(x, y, less) = less(x, y) ? y : x ;
+   with less(x, y) = x.matchIPAddr(y) < 0 *)
+Definition addr_less (x y : N) : bool := matchIPAddr x y <? 0.
+Definition addr_min (x y : N) : N := if addr_less y x then y else x.
+Definition addr_max (x y : N) : N := if addr_less x y then y else x.
 
 (* Acl::SplayInserter<acl_ip_data*>::MakeCombinedValue(a, b) *)
 Definition combined (a b : ipval) : ipval :=
@@ -100,7 +103,7 @@ Definition combined (a b : ipval) : ipval :=
 Definition net_cmp (c : N) (q : ipval) : Z :=
   let A := applyMask c (mk q) in
   if isAnyAddr (a2 q) then matchIPAddr A (a1 q)
-  else if addr_ge A (a1 q) && addr_le A (a2 q) then 0
+  else if (matchIPAddr A (a1 q) >=? 0) && (matchIPAddr A (a2 q) <=? 0) then 0
   else matchIPAddr A (a1 q).
 
 (* Outcome of Merge() / parse() *)
